@@ -80,6 +80,12 @@ def make_ctx(fa):
     c["fixdec"] = fa.parse_schema(copy.deepcopy(FIXDEC))
     c["bdec"] = fa.parse_schema({"type": "bytes", "logicalType": "decimal", "precision": 12, "scale": 4})
     c["ts_naive"] = fa.parse_schema(copy.deepcopy(TS_NAIVE))
+    # every execution starts after a write that failed part-way (whatever such a failure leaves behind is shared state)
+    for bad in ({"id": 1, "s": 5}, {"id": "x"}):
+        try:
+            fa.schemaless_writer(io.BytesIO(), c["rec"], bad)
+        except Exception:
+            pass
     return c
 
 
